@@ -103,6 +103,10 @@ func oracleC12(op string, a []string) string {
 		if back := nasConvert.PlmnIDToString(w); back != string(mcc)+string(mnc) {
 			return fmt.Sprintf("FAIL PLMN text -> wire -> text = %q", back)
 		}
+		if r := staleResult(func() []byte { return nasConvert.PlmnIDToNas(models.PlmnId{Mcc: string(mcc), Mnc: string(mnc)}) },
+			func() []byte { return nasConvert.PlmnIDToNas(models.PlmnId{Mcc: "999", Mnc: "99"}) }); r != "" {
+			return "FAIL PlmnIDToNas: " + r
+		}
 		return "pass"
 	case "plmn2s":
 		w, ok := unhex(a[0])
